@@ -14,6 +14,9 @@ type modEntry struct {
 	sort string
 	all  bool        // whole component
 	refs []ssa.Value // pointwise: rows (slices: base of the slice value) or refs
+	// nested sub-objects of these root objects are written (the exact cell is
+	// not tracked): harmless when the root is allocated inside the loop
+	subRoots []ssa.Value
 }
 
 type modSet struct {
@@ -48,6 +51,24 @@ func (s *modSet) addAt(comp, sort string, ref ssa.Value) {
 		}
 	}
 	e.refs = append(e.refs, ref)
+}
+
+func (s *modSet) addSub(comp, sort string, root ssa.Value) {
+	if root == nil {
+		s.addAll(comp, sort)
+		return
+	}
+	e := s.m[comp]
+	if e == nil {
+		e = &modEntry{sort: sort}
+		s.m[comp] = e
+	}
+	for _, r := range e.subRoots {
+		if r == root {
+			return
+		}
+	}
+	e.subRoots = append(e.subRoots, root)
 }
 
 func (s *modSet) keys() []string {
